@@ -359,6 +359,16 @@ def proof_gate(pid, theorems=None):
     info = {"obligations": len(theorems), "discharged": discharged, "assumptions": assumptions,
             "checker_cmd": "make -C coq (coqc 8.16.1, full .vo) ; coqc .cache/gate/Gate_%s.v "
                            "(Check name : pinned statement ; Print Assumptions name)" % pid}
+    if os.environ.get("VERIF_TIER") == "thorough" and not fails:
+        # the independent checker re-checks the compiled property file and everything it depends on
+        ok, out = coqchk(pid)
+        summary = out[out.find("CONTEXT SUMMARY"):] if "CONTEXT SUMMARY" in out else out[-600:]
+        clean = ok and "* Axioms: <none>" in summary and "type-in-type: <none>" in summary \
+            and "unsafe (co)fixpoints: <none>" in summary and "positivity is assumed: <none>" in summary
+        info["coqchk"] = "coqchk -silent -o ToughV.Properties.%s: %s" % (pid, "no axioms, nothing assumed" if clean else summary)
+        info["checker_cmd"] += " ; coqchk -silent -o -Q coq ToughV ToughV.Properties.%s" % pid
+        if not clean:
+            fails.append("coqchk does not accept Properties/%s.vo without axioms: %s" % (pid, summary[-800:]))
     return info, fails
 
 
@@ -480,6 +490,8 @@ class Check:
             cov["obligations"] = self.proof["obligations"]
             cov["discharged"] = self.proof["discharged"]
             cov["checker_cmd"] = self.proof.get("checker_cmd", "make -C coq")
+            if "coqchk" in self.proof:
+                cov["coqchk"] = self.proof["coqchk"]
             cov["print_assumptions"] = {k: (v or "Closed under the global context")
                                         for k, v in self.proof.get("assumptions", {}).items()}
         cov.update(self.extra)
